@@ -197,8 +197,23 @@ def main(run):
             if t == 0:
                 continue
             e = sc.e
-            var = e.variances
             replay = {"cfg": cfg, "seed": seed, "step": t}
+            # reads are pure: asking for normalised values / bounds / losses any number of times, in any order, changes nothing
+            snap0 = sc.snapshot()
+            readers = [lambda: e.get_confidence_bound(0.5), lambda: e.get_normalized_importance_values("sum"),
+                       lambda: e.get_normalized_importance_values("delta"), lambda: e.importance_values, lambda: e.variances,
+                       lambda: e.get_confidence_bound(0.01), lambda: getattr(e, "explained_loss", None), lambda: repr(e)]
+            try:
+                for _ in range(rnd.randrange(0, 5)):
+                    rnd.choice(readers)()
+            except Exception as ex:
+                run.violation("read-raises", f"cfg {cfg} step {t}: a read-only call raised {type(ex).__name__}: {ex}", replay)
+                break
+            run.ok(kind="read-purity")
+            if not (sc.snapshot() == snap0):
+                run.violation("read-not-pure", f"cfg {cfg} step {t}: reading normalised values / confidence bounds changed the estimates", replay)
+                break
+            var = e.variances
             run.ok(kind="variances")
             if not all(v >= 0 for v in var.values()):
                 run.violation("negative-variance", f"cfg {cfg} step {t}: variances {var!r}", replay)
